@@ -289,6 +289,10 @@ func Run(prefix []int, bodies []func()) *Execution {
 type Explorer struct {
 	Bound      int // max preemptions (-1: unbounded)
 	MaxExec    int
+	// MaxTime: stop exploring (Capped) when this much wall-clock time has been spent on the
+	// scenario; 0 = no limit. A cap is reported, never a verdict.
+	MaxTime time.Duration
+	started time.Time
 	Executions int
 	MaxPoints  int
 	Capped     bool
@@ -316,6 +320,14 @@ func (e *Explorer) Explore(scenario func(prefix []int) *Execution, check func(x 
 		if e.MaxExec > 0 && e.Executions >= e.MaxExec {
 			e.Capped = true
 			return false
+		}
+		if e.MaxTime > 0 {
+			if e.started.IsZero() {
+				e.started = time.Now()
+			} else if time.Since(e.started) > e.MaxTime {
+				e.Capped = true
+				return false
+			}
 		}
 		x := scenario(prefix)
 		e.Executions++
